@@ -171,7 +171,7 @@ pub fn run(p: &AdvParams, sc: &str) -> (Vec<Vec<String>>, Value) {
     )
 }
 
-pub fn all_params(thorough: bool, seed: u64) -> Vec<AdvParams> {
+pub fn all_params(mode: &str, thorough: bool, seed: u64) -> Vec<AdvParams> {
     let mut subs: Vec<Value> = vec![];
     let pick = |v: Vec<Value>, every: usize, off: usize| -> Vec<Value> { v.into_iter().enumerate().filter(|(i, _)| i % every == off % every).map(|(_, x)| x).collect() };
     let k = if thorough { 1 } else { 3 };
@@ -188,8 +188,11 @@ pub fn all_params(thorough: bool, seed: u64) -> Vec<AdvParams> {
     for rep in 0..reps {
         for (i, sub) in subs.iter().enumerate() {
             s += 1;
-            let p = [0.05, 0.15, 0.4][(i + rep) % 3];
-            v.push(AdvParams { sub: sub.clone(), p, scribble: (i + rep) % 2 == 0, seed: s });
+            // "plain": a standard-following device - the same driver-level bookkeeping (calls end,
+            // DMA ledger, no free of shared heap memory while the driver is in use) for C09
+            let plain = mode == "plain";
+            let p = if plain { 0.0 } else { [0.05, 0.15, 0.4][(i + rep) % 3] };
+            v.push(AdvParams { sub: sub.clone(), p, scribble: !plain && (i + rep) % 2 == 0, seed: s });
         }
     }
     v
